@@ -548,7 +548,7 @@ Definition ex_db : db :=
 
 (* the sign-response handler as it was (delete outside the mutex) races with a sign request *)
 Lemma old_unlocked_delete :
-  exists sched, data_race (run (init_world ex_db [(M_localAuth, 1, 3)] [handler (HU2fSignRespOld 1 true); handler (HU2fSignReq 1 5)]) sched).
+  exists sched, data_race (run (init_world ex_db [(M_localAuth, 1, 3)] [handler (HU2fSignRespOld 1 3); handler (HU2fSignReq 1 5)]) sched).
 Proof.
   exists [0; 0; 0; 0; 0; 0; 0; 1; 1; 1]%nat. apply (racing_sound _ 0%nat 1%nat); [discriminate|]. vm_compute. reflexivity.
 Qed.
